@@ -3,6 +3,7 @@
 use scnr::ScannerBuilder;
 use scnr_verif_harness::astser::{self, RefCache, RefTables};
 use scnr_verif_harness::cfggen::{self, ModeSpec, PatSpec, ProgCfg};
+use scnr_verif_harness::classgen;
 use scnr_verif_harness::proto::{self, TableCache};
 use scnr_verif_harness::real::{self, History, Profile};
 use scnr_verif_harness::rng::Rng;
@@ -503,6 +504,126 @@ fn case_c03(seed: u64, idx: usize, cache: &TableCache, out: &mut String, st: &mu
     c03_case(idx, &spec, cache, out, st);
 }
 
+fn write_ranges(out: &mut String, t: &[(u32, u32)]) {
+    for (lo, hi) in t {
+        let _ = write!(out, " {} {}", lo, hi);
+    }
+    out.push('\n');
+}
+
+/// C08: one class expression; the real table against evaluation mirror and denotation.
+fn class_case(idx: usize, text: &str, rcache: &RefCache, out: &mut String, st: &mut Stats) {
+    st.cases += 1;
+    let Some(br) = classgen::parse_bracketed(text) else {
+        st.count("not_a_bracketed_class", 1);
+        return;
+    };
+    let mode = scnr::ScannerMode::new("C", vec![scnr::Pattern::new(text.to_string(), 0)], vec![]);
+    let built = catch_unwind(AssertUnwindSafe(|| {
+        ScannerBuilder::new().add_scanner_mode(mode).build_uncached()
+    }));
+    let scanner = match built {
+        Err(_) => {
+            st.build_panic += 1;
+            let _ = writeln!(out, "case {}\nexpect buildpanic\n# class {}", idx, text.escape_default());
+            return;
+        }
+        Ok(Err(_)) => {
+            st.build_err += 1;
+            return;
+        }
+        Ok(Ok(s)) => s,
+    };
+    let d = scanner.verif_dump();
+    if d.classes.len() != 1 {
+        st.count("not_a_single_class", 1);
+        return;
+    }
+    let real = proto::class_table(&scanner, 0);
+    let mut env = classgen::Env::default();
+    let mut ser = String::new();
+    if classgen::ser_set(&br.kind, &mut env, rcache, &mut ser).is_none() {
+        st.count("reference_unavailable", 1);
+        return;
+    }
+    let _ = writeln!(out, "case {}\nexpect case {}\n# class {}", idx, idx, text.escape_default());
+    out.push_str("scanner\n");
+    for (i, t) in env.tables.iter().enumerate() {
+        let _ = write!(out, "eclass {}", i);
+        write_ranges(out, t);
+    }
+    let _ = writeln!(out, "cls {}{}", br.negated as u8, ser);
+    out.push_str("real");
+    write_ranges(out, &real);
+    out.push_str("classcheck\nexpect classcheck ok\n");
+    st.count("scalars_enumerated", 1_112_064);
+    st.count("real_table_ranges", real.len());
+    if text.contains('.') {
+        st.count("with_dot_literal", 1);
+    }
+    if st.samples.len() < 5 {
+        st.samples.push(text.to_string());
+    }
+}
+
+fn case_c08(seed: u64, idx: usize, rcache: &RefCache, out: &mut String, st: &mut Stats) {
+    let mut r = Rng::derive(seed, idx as u64);
+    // a separately labelled stream (5 %) contains verbatim `.` literals (finding F3)
+    let dot = idx % 20 == 19;
+    let depth = r.range(0, 4);
+    let text = classgen::gen_bracket(&mut r, depth, dot);
+    class_case(idx, &text, rcache, out, st);
+}
+
+/// ASCII restrictions of \d \s \w and the classes of the repository corpora.
+fn c08_fixed(rcache: &RefCache, out: &mut String, st: &mut Stats) {
+    out.push_str("case 2000000\nexpect case 2000000\nscanner\n");
+    for (name, expected) in [("\\d", "48 57"), ("\\s", "9 13 32 32"), ("\\w", "48 57 65 90 95 95 97 122")] {
+        if let Some(t) = rcache.class_leaf(name) {
+            out.push_str("real");
+            write_ranges(out, &t);
+            let _ = writeln!(out, "asciicheck {}", expected);
+            out.push_str("expect asciicheck ok\n");
+            st.count("ascii_restrictions_checked", 1);
+        }
+    }
+    // all bracketed classes occurring in the corpora
+    let mut seen = std::collections::BTreeSet::new();
+    for (_, spec) in load_corpora() {
+        for m in &spec {
+            for p in &m.patterns {
+                let mut texts = vec![p.pattern.clone()];
+                if let Some((_, la)) = &p.lookahead {
+                    texts.push(la.clone());
+                }
+                for t in texts {
+                    if let Ok(ast) = regex_syntax::ast::parse::Parser::new().parse(&t) {
+                        collect_classes(&ast, &mut seen);
+                    }
+                }
+            }
+        }
+    }
+    for (i, text) in seen.iter().enumerate() {
+        class_case(2_000_001 + i, text, rcache, out, st);
+        st.count("corpus_classes", 1);
+    }
+}
+
+fn collect_classes(ast: &regex_syntax::ast::Ast, out: &mut std::collections::BTreeSet<String>) {
+    use regex_syntax::ast::Ast;
+    match ast {
+        Ast::ClassBracketed(_) => {
+            out.insert(ast.to_string());
+        }
+        Ast::Repetition(r) => collect_classes(&r.ast, out),
+        Ast::Group(g) => collect_classes(&g.ast, out),
+        Ast::Alternation(a) => a.asts.iter().for_each(|x| collect_classes(x, out)),
+        Ast::Concat(c) => c.asts.iter().for_each(|x| collect_classes(x, out)),
+        _ => {}
+    }
+}
+
 fn main() {
     // silence panic messages of caught panics
     std::panic::set_hook(Box::new(|_| {}));
@@ -528,6 +649,7 @@ fn main() {
                         "C01" | "C04" | "C05" | "find" => case_find(seed, idx, &suite, &cache, &rcache, &mut out, &mut st),
                         "C02" => case_c02(seed, idx, &cache, &rcache, &mut out, &mut st),
                         "C03" => case_c03(seed, idx, &cache, &mut out, &mut st),
+                        "C08" => case_c08(seed, idx, &rcache, &mut out, &mut st),
                         _ => case_iter(seed, idx, &suite, &cache, &mut out, &mut st),
                     }
                     idx += threads;
@@ -554,6 +676,14 @@ fn main() {
             }
             s.count("corpus_configurations", 1);
         }
+        s.samples.clear();
+        all.push_str(&o);
+        stats.merge(s);
+    }
+    if args.suite == "C08" {
+        let mut o = String::new();
+        let mut s = Stats::default();
+        c08_fixed(&rcache, &mut o, &mut s);
         s.samples.clear();
         all.push_str(&o);
         stats.merge(s);
